@@ -22,9 +22,9 @@ from sfc_models.utils import TimeSeriesHolder  # noqa
 ID = 'C16'
 LEVEL = 'model_checking'
 RULE = ('states = (flags cutoff/suppression, whether the caller still holds a returned list); transitions = one public call: '
-        'GetTimeSeries(name in {x,k,missing}, cutoff in {None,0,2,10}, group in {main,step,initial}), set TimeSeriesCutoff {None,2}, set '
+        'GetTimeSeries(name in {x,k,missing}, cutoff in {None,0,2,10}, group in {main,step,initial}), set TimeSeriesCutoff {None,2,0}, set '
         'TimeSeriesSupressTimeZero {F,T}, mutate the list returned last (append/pop/clear/assign), GenerateCSVtext(fmt) on solver and holders, '
-        'GetSeriesList() and mutation of the returned name list, BaseSolver.CreateCsvString(); all histories up to the depth bound replayed on '
+        'GetSeriesList() and mutation of the returned name list, creation and rendering of unrelated holders / a traced solver elsewhere in the process, BaseSolver.CreateCsvString(); all histories up to the depth bound replayed on '
         'freshly solved objects and (one level shallower) on a solver stepped half-way, whose stored series are of unequal length; oracle per transition: return value == reference, stored holders == snapshot, rendering == first rendering; '
         'non-trivial = histories containing a caller-side mutation or a flag change followed by a retrieval')
 ASSUMPTIONS = [
@@ -77,11 +77,12 @@ for name in ('x', 'k', 'nosuch'):
 for group in ('step', 'initial'):
     for cutoff in (None, 2):
         OPS.append(['get', 'x', cutoff, group])
-OPS += [['cutoff', None], ['cutoff', 2], ['suppress', False], ['suppress', True]]
+OPS += [['cutoff', None], ['cutoff', 2], ['cutoff', 0], ['suppress', False], ['suppress', True]]
 OPS += [['mutate', 'append'], ['mutate', 'pop'], ['mutate', 'clear'], ['mutate', 'assign']]
 OPS += [['csv', 'solver', '%.5g'], ['csv', 'solver', '%.3f'], ['csv', 'main', '%.5g'], ['csv', 'step', '%e'], ['csv', 'initial', '%.5g']]
 OPS += [['csv', 'solver', None], ['csv', 'main', None]]          # default format argument
 OPS += [['serieslist', 'main'], ['mutate-names', 'clear'], ['mutate-names', 'reverse']]
+OPS += [['elsewhere']]        # other holders / another traced solver are created and rendered elsewhere in the process
 
 
 def run_history(hist, start='solved'):
@@ -152,6 +153,15 @@ def run_history(hist, start='solved'):
                 if key in first_render and first_render[key] != txt:
                     return core.violation('rendering-not-repeatable', what + ': text differs from the first rendering', case)
                 first_render[key] = txt
+            elif op[0] == 'elsewhere':
+                h = TimeSeriesHolder('year')
+                h['year'] = [1., 2.]
+                h['aa'] = [3., 4.]
+                h.GenerateCSVtext()
+                o2 = EquationSolver('p = .5*p + 1\nMaxTime = 2')
+                o2.TraceStep = 1
+                o2.SolveEquation()
+                o2.GenerateCSVtext()
             elif op[0] == 'serieslist':
                 last_names = holders[op[1]]().GetSeriesList()
                 if sorted(last_names) != sorted(ref[op[1]].keys()):
